@@ -21,12 +21,12 @@ import (
 )
 
 type jLookup struct {
-	K       string `json:"k"`
-	Name    string `json:"name,omitempty"`
-	Ty      int    `json:"ty,omitempty"`
-	NParams int    `json:"nparams,omitempty"`
-	Results []int  `json:"results,omitempty"`
-	NeedsAddr bool `json:"needsAddr,omitempty"`
+	K         string `json:"k"`
+	Name      string `json:"name,omitempty"`
+	Ty        int    `json:"ty,omitempty"`
+	NParams   int    `json:"nparams,omitempty"`
+	Results   []int  `json:"results,omitempty"`
+	NeedsAddr bool   `json:"needsAddr,omitempty"`
 }
 
 type jField struct {
@@ -124,23 +124,23 @@ type jRegex struct {
 }
 
 type Facts struct {
-	PkgPath       string      `json:"pkgPath"`
-	PkgName       string      `json:"pkgName"`
-	Imports       []jImport   `json:"imports"`
-	Types         []jTy       `json:"types"`
-	Assignable    []string    `json:"assignable"`
-	Convertible   []string    `json:"convertible"`
-	Identical     []string    `json:"identical"`
-	Lookups       []jLookupE  `json:"lookups"`
-	ScopeNames    []string    `json:"scopeNames"`
-	StringTy      int         `json:"stringTy"`
-	LocalFuncs    []jLocalF   `json:"localFuncs"`
-	PkgImports    []string    `json:"pkgImports"`
-	ImportedFuncs []jImportF  `json:"importedFuncs"`
-	Regex         []jRegex    `json:"regex"`
-	File          jFile       `json:"file"`
-	Notes         []string    `json:"notes,omitempty"` // reasons why the model may not apply (alphabet, size)
-	TypeErrors    int         `json:"typeErrors"`
+	PkgPath       string     `json:"pkgPath"`
+	PkgName       string     `json:"pkgName"`
+	Imports       []jImport  `json:"imports"`
+	Types         []jTy      `json:"types"`
+	Assignable    []string   `json:"assignable"`
+	Convertible   []string   `json:"convertible"`
+	Identical     []string   `json:"identical"`
+	Lookups       []jLookupE `json:"lookups"`
+	ScopeNames    []string   `json:"scopeNames"`
+	StringTy      int        `json:"stringTy"`
+	LocalFuncs    []jLocalF  `json:"localFuncs"`
+	PkgImports    []string   `json:"pkgImports"`
+	ImportedFuncs []jImportF `json:"importedFuncs"`
+	Regex         []jRegex   `json:"regex"`
+	File          jFile      `json:"file"`
+	Notes         []string   `json:"notes,omitempty"` // reasons why the model may not apply (alphabet, size)
+	TypeErrors    int        `json:"typeErrors"`
 }
 
 type jLookupE struct {
